@@ -1,16 +1,19 @@
 #!/bin/bash
-# usage: tools/seed_matrix.sh [IDs...]   - applies every stored seeded change to /repo in turn, runs the quick tier of the
-# property's own check, reverts, and appends {id, rc} to seeded/matrix.jsonl. /repo must be clean. Evidence goes to a scratch dir.
+# usage: tools/seed_matrix.sh [IDs...]   - applies every stored seeded change to /repo (or to the worktree named by FSV_REPO,
+# which leaves /repo free) in turn, runs the quick tier of the property's own check, reverts, and appends {id, rc} to
+# seeded/matrix.jsonl. The tree must be clean. Evidence goes to a scratch dir.
 cd "$(dirname "$0")/.."
+R=${FSV_REPO:-/repo}
 ids=${@:-$(ls seeded | grep -E '^C[0-9]{2}[a-z]?$')}
-[ -n "$(git -C /repo status --porcelain --untracked-files=no)" ] && { echo "/repo not clean"; exit 2; }
+[ -n "$(git -C $R status --porcelain --untracked-files=no)" ] && { echo "$R not clean"; exit 2; }
 export FSV_OUT=${FSV_OUT:-/dev/shm/fsv-matrix}
 mkdir -p $FSV_OUT
 for id in $ids; do
   p=${id:0:3}
-  git -C /repo apply /verif/seeded/$id/patch.diff || { echo "{\"id\": \"$id\", \"rc\": \"patch does not apply\"}" | tee -a seeded/matrix.jsonl; continue; }
+  git -C $R apply /verif/seeded/$id/patch.diff || { echo "{\"id\": \"$id\", \"rc\": \"patch does not apply\"}" | tee -a seeded/matrix.jsonl; continue; }
+  find $R/src -name "*.rs" -exec touch {} +
   o=$(./check $p --tier quick 2>&1); rc=$?
-  git -C /repo checkout -- .
+  git -C $R checkout -- .
   first=$(echo "$o" | grep -A1 "^VIOLATION" | sed -n 2p | cut -c1-160 | tr '"\\' "' ")
-  echo "{\"id\": \"$id\", \"check\": \"$p\", \"rc\": $rc, \"head\": \"$(git -C /repo rev-parse --short HEAD)\", \"first\": \"$first\"}" | tee -a seeded/matrix.jsonl
+  echo "{\"id\": \"$id\", \"check\": \"$p\", \"rc\": $rc, \"head\": \"$(git -C $R rev-parse --short HEAD)\", \"first\": \"$first\"}" | tee -a seeded/matrix.jsonl
 done
